@@ -1,7 +1,10 @@
 /-
   C04 — Decoding untrusted bytes is total and resource-bounded.
 
-  What is proved here (partial, see DESIGN.md §7 C04):
+  What is proved here (see DESIGN.md §7 C04):
+  * on EVERY byte string (`decode_bounded`, `fuel_never_runs_out`): what the decoder returns is
+    nested at most `MAX_NESTING_DEPTH` deep, what it leaves is a suffix of its input, its size is
+    bounded by 17 × (input length + 65536), and the model's recursion counter never runs out;
   * the decoder model is a total function by construction (structural recursion
     on fuel; `decode` supplies fuel from the input length): it returns a value
     or an error for every byte string — there is no other outcome in the model,
@@ -44,6 +47,61 @@ theorem map_dedup_nest (vs : List Value) :
     nestAll (flattenPairs (insertAll [] vs)) ≤ nestAll vs := by
   have := nestAll_insertAll vs []
   simpa [flattenPairs, nestAll] using this
+
+/-- **decode_bounded — on every byte string.**  Whatever `from_slice::<Value>` returns for whatever
+    input: what it leaves is a suffix of the input (it consumed a prefix, read nothing else, invented
+    nothing); the value is nested no deeper than the decoder's limit; and the size of the value
+    (`mass`: one unit per node plus every payload byte) is at most 17 × (bytes consumed + the fixed
+    budget of 65536 body-less array elements) — memory in proportion to the input, with the
+    constant the decoder's `zero_width_budget` allows.  Proved by induction over the decoder with the
+    invariant `StepInv` / `SeqInv` (Theorems/Lemmas/CodecDec.lean). -/
+theorem decode_bounded (bs : Bytes) (v : Value) (rest : Bytes) (h : decode bs = .ok (v, rest)) :
+    IsSuffix rest bs ∧ nest v ≤ MAX_NESTING_DEPTH ∧
+    mass v + 17 * rest.length ≤ 17 * (bs.length + MAX_ARRAY_COUNT) := by
+  unfold decode at h
+  replace h := bind_ok h
+  obtain ⟨x, hx, h⟩ := h
+  simp [pure, Except.pure] at h
+  obtain ⟨rfl, rfl⟩ := h
+  have i := (dec_inv _).1 _ _ _ _ hx
+  have m := i.mass
+  simp only [slack_mk_none] at m
+  try dsimp only at m
+  exact ⟨i.suffix, i.nest, by omega⟩
+
+/-- the same bound for every intermediate state of the decoder, not only the top-level call: any
+    single value decoded at any point, with any element constructor in force -/
+theorem dec_bounded (fuel depth : Nat) (st : DSt) (v : Value) (s : DSt) (h : dec fuel depth st = .ok (v, s)) :
+    StepInv depth st v s := (dec_inv fuel).1 depth st v s h
+
+/-- **fuel_never_runs_out — on every byte string.**  The model bounds its recursion by a counter; the
+    implementation has none.  The counter never decides anything: `decode` never returns the model's
+    own out-of-fuel error, because every recursive descent passes the depth guard (at most
+    `MAX_NESTING_DEPTH` levels) and every sequence passes a count guard (at most `MAX_ARRAY_COUNT`
+    entries per level; 255 for the one-byte headers).  So "returns a value or an error" is a
+    statement about the decoding algorithm, not an artefact of cutting the recursion off. -/
+theorem fuel_never_runs_out (bs : Bytes) : decode bs ≠ .error .fuel := by
+  intro h
+  unfold decode at h
+  rcases bind_err h with h0 | ⟨x, _, h1⟩
+  · exact (dec_nofuel _).1 _ _ (need_le_decodeFuel _) h0
+  · simp [pure, Except.pure] at h1
+
+/-- the decoder's progress: a decoding step that is not paid for by the body-less budget consumes at
+    least one byte per node of the value it returns — there is no way to make it produce values
+    without feeding it input -/
+theorem nodes_paid_for (bs : Bytes) (v : Value) (rest : Bytes) (h : decode bs = .ok (v, rest)) :
+    mass v ≤ 17 * (bs.length - rest.length + MAX_ARRAY_COUNT) := by
+  obtain ⟨hs, _, hm⟩ := decode_bounded bs v rest h
+  have := hs.len
+  omega
+
+/-- non-vacuity: a nested input (a list of a map, an array of three ubytes and a described empty list,
+    followed by one more byte) decodes, and meets every clause: nesting 3, size 27 ≤ 17 × (22 + 65536) -/
+example : (match decode [0xc0, 0x15, 0x03, 0xc1, 0x05, 0x02, 0xa3, 0x01, 0x61, 0x52, 0x07, 0xe0, 0x05, 0x03, 0x50,
+      0x01, 0x02, 0x03, 0x00, 0x53, 0x24, 0x45, 0x99] with
+    | .ok (v, rest) => some (nest v, mass v, rest)
+    | .error _ => none) = some (3, 27, [0x99]) := by decide +kernel
 
 /-- hostile inputs of the corpus, decided by kernel evaluation of the model
     (the same inputs are run on the implementation on every check) -/
